@@ -67,6 +67,7 @@ pub fn split_blocks(evs: &[Ev], term: u8) -> Vec<Ev> {
 pub fn judge(case: &Case, knobs: &Knobs, strat: &Strategy, reference: &RunOut, m: &ModelOut, out: &RunOut) -> Vec<Verdict> {
     let mut v = vec![];
     let kind_s = if knobs.toggle_ml { format!("multiline-toggle:{}", strat.kind()) } else { strat.kind().to_string() };
+    let kind_s = if knobs.warm != 0 { format!("reused-searcher:{kind_s}") } else { kind_s };
     let kind = kind_s.as_str();
     // With multi-line mode requested the searcher may deliver adjacent
     // matching lines as one block; results are compared line by line.
@@ -175,7 +176,7 @@ pub fn gen_history(rng: &mut Rng) -> History {
 }
 
 pub fn gen_knobs(rng: &mut Rng) -> Knobs {
-    Knobs { capacity: if rng.chance(1, 5) { None } else { Some(CAPACITIES[rng.below(CAPACITIES.len())]) }, heap_limit: None, mmap: false, toggle_ml: false }
+    Knobs { capacity: if rng.chance(1, 5) { None } else { Some(CAPACITIES[rng.below(CAPACITIES.len())]) }, heap_limit: None, mmap: false, toggle_ml: false, warm: 0, cloned: rng.chance(1, 4) }
 }
 
 /// Runs every leg for one generated case.
@@ -277,6 +278,29 @@ pub fn run_case(prop: &str, sub: u64, histories: usize, scratch: &Path, acc: &mu
             report(acc, &case, &knobs, &st, "multiline-toggle", &o, vs);
         }
     }
+    // a searcher that is not fresh: one worker searches file after file with the
+    // same Searcher, so what an earlier search left behind must not show
+    if rng.chance(1, 3) {
+        for _ in 0..2 {
+            let warm = rng.next() | 1;
+            let toggle_ml = !case.cfg.stop_nm && rng.chance(1, 3) && {
+                let mut c2 = case.clone();
+                c2.cfg.multi_line = !case.cfg.multi_line;
+                build_matcher(&c2).is_ok()
+            };
+            let (knobs, st) = match rng.below(4) {
+                0 => (Knobs { warm, toggle_ml, ..k0 }, Strategy::Slice),
+                1 => (Knobs { warm, toggle_ml, ..k0 }, Strategy::Path { mmap: rng.chance(1, 2) }),
+                _ => (Knobs { warm, toggle_ml, ..gen_knobs(&mut rng) }, Strategy::Reader(gen_history(&mut rng))),
+            };
+            let o = run(&case, &knobs, &st, None, Some(scratch));
+            acc.evals += 1;
+            acc.cur_digest = digest_run(acc.cur_digest, &o);
+            acc.faults.inc("searcher-reused-after-another-search");
+            let vs = judge(&case, &knobs, &st, &reference, &m, &o);
+            report(acc, &case, &knobs, &st, "reused-searcher", &o, vs);
+        }
+    }
     // real file: memory map and plain reads
     if rng.chance(1, 12) {
         for mmap in [true, false] {
@@ -322,7 +346,7 @@ fn heap_limit_leg(case: &Case, rng: &mut Rng, reference: &RunOut, sub: u64, acc:
     let h = History::plain(Style::gen(rng), rng.next());
     let cap = if rng.chance(1, 2) { Some(CAPACITIES[rng.below(8)]) } else { None };
     let st = Strategy::Reader(h);
-    let ok_at = |limit: usize| -> RunOut { run(case, &Knobs { capacity: cap, heap_limit: Some(limit), mmap: false, toggle_ml: false }, &st, None, None) };
+    let ok_at = |limit: usize| -> RunOut { run(case, &Knobs { capacity: cap, heap_limit: Some(limit), mmap: false, toggle_ml: false, warm: 0, cloned: false }, &st, None, None) };
     let (mut lo, mut hi) = (0usize, case.data.len() + 70_000);
     if ok_at(hi).res.is_err() {
         return;
@@ -343,10 +367,10 @@ fn heap_limit_leg(case: &Case, rng: &mut Rng, reference: &RunOut, sub: u64, acc:
         class: class.into(),
         summary,
         subseed: sub,
-        replay: json!({"engine": "iosim", "kind": "c02c03", "leg": "heap-limit", "case": case.to_json(), "knobs": knobs_json(&Knobs { capacity: cap, heap_limit: Some(limit), mmap: false, toggle_ml: false }), "strategy": st.to_json(), "observed": evs_json(&o.evs), "observed_result": format!("{:?}", o.res)}),
+        replay: json!({"engine": "iosim", "kind": "c02c03", "leg": "heap-limit", "case": case.to_json(), "knobs": knobs_json(&Knobs { capacity: cap, heap_limit: Some(limit), mmap: false, toggle_ml: false, warm: 0, cloned: false }), "strategy": st.to_json(), "observed": evs_json(&o.evs), "observed_result": format!("{:?}", o.res)}),
     };
     let m = model(case);
-    let kk = Knobs { capacity: cap, heap_limit: Some(hi), mmap: false, toggle_ml: false };
+    let kk = Knobs { capacity: cap, heap_limit: Some(hi), mmap: false, toggle_ml: false, warm: 0, cloned: false };
     for vd in judge(case, &kk, &st, reference, &m, &at) {
         if vd.prop == "C02" {
             acc.violations.push(mk(&format!("heap-limit-just-sufficient:{}", vd.class), format!("with heap limit {hi} (the smallest that succeeds): {}", vd.summary), hi, &at));
@@ -413,6 +437,12 @@ pub fn minimise(prop: &str, class: &str, case: &Case, knobs: &Knobs, strat: &Str
     }
     if k.capacity.is_some() {
         let k2 = Knobs { capacity: None, ..k };
+        if still_fails(prop, class, &c, &k2, &s, scratch) {
+            k = k2;
+        }
+    }
+    if k.cloned {
+        let k2 = Knobs { cloned: false, ..k };
         if still_fails(prop, class, &c, &k2, &s, scratch) {
             k = k2;
         }
